@@ -1,3 +1,4 @@
+import TantivyModel.Proofs.SSTable.StateStack
 import TantivyModel.Proofs.SSTable.Framing
 import TantivyModel.Proofs.SSTable.LocateOrd
 import TantivyModel.Proofs.SSTable.Inverse
@@ -581,6 +582,31 @@ theorem C15_file_roundtrip (blockLen : Nat) (ks : List Key) (tail : List UInt8) 
 example : MonoFrom 0 [3, 3, 10] ∧ Contig [(5, 7), (7, 7), (7, 20)] ∧ MonoFrom 0 (rangeBounds [(5, 7), (7, 7), (7, 20)]) := by
   simp [MonoFrom, Contig, rangeBounds]
 example : frameBlocks [[16, 17, 33, 18, 19, 17, 20]] = [8, 0, 0, 0, 0, 16, 17, 33, 18, 19, 17, 20, 0, 0, 0, 0] := by decide
+
+/-! ## the streamer's automaton state stack -/
+
+/-- `Streamer::advance` as the code runs it — on the front-coded `(keep, suffix)` entries, with
+`key.truncate(keep)`, `states.truncate(keep + 1)` and one pushed automaton state per suffix byte,
+done before the bound tests so the stack stays valid for entries skipped below the lower bound,
+`key`/`states` persisting across block boundaries — equals the streamer over the decoded entries
+that runs the automaton from its start state on every key: for every automaton, bounds, block
+list and starting ordinal. (Seeded change C15-B moves the stack update behind the bound tests.) -/
+theorem C15_streamer_state_stack {σ V} (A : Automaton σ) (lo hi : Bound) (bs : List (Assoc V))
+    (passed : Bool) (ord : Nat) :
+    scanSearchDelta A lo hi passed ord [] [A.start] (fileTriples bs)
+      = scanSearch A lo hi passed ord bs.flatten := by
+  have h0 : [A.start] = statesOf A A.start [] := by simp [statesOf, pushStates]
+  rw [h0]
+  exact scanSearchDelta_eq A lo hi _ _ [] passed ord (encodes_file bs [])
+
+/-- hence the automaton search through the byte-level mechanism equals the block-model search of
+`C15_automaton_stream`, on every dictionary -/
+theorem C15_search_delta {σ V} (d : Dict V) (A : Automaton σ) (lo hi : Bound) :
+    d.searchDelta A lo hi = d.search A lo hi := searchDelta_eq d A lo hi
+
+example : scanSearchDelta (prefixAutomaton [1]) .unbounded .unbounded false 0 [] [(prefixAutomaton [1]).start]
+      (fileTriples [[(([0, 5] : Key), 1), ([1], 2)], [([1, 7], 3), ([2], 4)]])
+    = [(1, [1], 2), (2, [1, 7], 3)] := by decide
 
 /-! ## insertion order (DESIGN §8, F6) -/
 
